@@ -115,6 +115,8 @@ impl<'a, 'b> Generator<'a, 'b> {
                 IR::Neg(t, a) => ii!(self, t, "(-{})", a),
 
                 IR::Str(t, s) => iis!(self, t, "\"{}\"", s),
+                // A literal too large for a float is infinite - `{:?}` would write the name `inf`.
+                IR::Float(t, f) if f.is_infinite() => iis!(self, t, "math.huge"),
                 IR::Float(t, f) => iis!(self, t, "{:?}", f),
 
                 IR::Equals(t, a, b) => ii!(self, t, "({} == {})", a, b),
